@@ -7,6 +7,7 @@ import (
 
 	cfgapi "github.com/containers/nri-plugins/pkg/apis/config/v1alpha1"
 	policycfg "github.com/containers/nri-plugins/pkg/apis/config/v1alpha1/resmgr/policy"
+	blcfg "github.com/containers/nri-plugins/pkg/apis/config/v1alpha1/resmgr/policy/balloons"
 	"github.com/containers/nri-plugins/pkg/verif/sysgen"
 )
 
@@ -192,5 +193,113 @@ func c09Scenarios(thorough bool) []*scenario {
 	add("ta/c09/restart", machine16(), std, pods(tG2, tB500, tBE), menu{stop: true, remove: true, restart: true}, nil)
 	add("ta/c09/recreate", machine16(), std, pods(tG2, tG1500), menu{stop: true, remove: true}, nil)
 	out[len(out)-1].maxInc = 2
+	return out
+}
+
+// ---------------------------------------------------------------------------
+// balloons
+
+type blOpt func(c *cfgapi.BalloonsPolicy)
+
+func blCfg(label string, defs []*blcfg.BalloonDef, opts ...blOpt) cfgSpec {
+	return cfgSpec{label: label, build: func() cfgapi.ResmgrConfig {
+		c := &cfgapi.BalloonsPolicy{}
+		c.Name = "default"
+		c.Spec.Config.ReservedResources = policycfg.Constraints{policycfg.CPU: "1"}
+		show := true
+		c.Spec.Config.ShowContainersInNrt = &show
+		for _, d := range defs {
+			c.Spec.Config.BalloonDefs = append(c.Spec.Config.BalloonDefs, d.DeepCopy())
+		}
+		for _, o := range opts {
+			o(c)
+		}
+		return c
+	}}
+}
+
+func blReserved(v string) blOpt {
+	return func(c *cfgapi.BalloonsPolicy) {
+		c.Spec.Config.ReservedResources = policycfg.Constraints{policycfg.CPU: policycfg.Amount(v)}
+	}
+}
+
+func blAvailable(v string) blOpt {
+	return func(c *cfgapi.BalloonsPolicy) {
+		c.Spec.Config.AvailableResources = policycfg.Constraints{policycfg.CPU: policycfg.Amount(v)}
+	}
+}
+
+func blIdleClass(cl string) blOpt {
+	return func(c *cfgapi.BalloonsPolicy) { c.Spec.Config.IdleCpuClass = cl }
+}
+
+func blPin(cpu, mem bool) blOpt {
+	return func(c *cfgapi.BalloonsPolicy) { c.Spec.Config.PinCPU, c.Spec.Config.PinMemory = &cpu, &mem }
+}
+
+func bptr(b bool) *bool { return &b }
+
+func nsPod(name, ns string, t *tmpl, ann map[string]string) podSpec {
+	return pod1(name, ns, qosOf(t), t, ann)
+}
+
+func blScenarios(thorough bool) []*scenario {
+	var out []*scenario
+	add := func(name string, m *sysgen.Spec, cfgs []cfgSpec, ps []podSpec, mn menu) *scenario {
+		s := &scenario{name: name, policy: polBalloons, machine: m, cfgs: cfgs, pods: ps, menu: mn, depth: 5, maxInc: 1}
+		if thorough {
+			s.depth = 6
+		}
+		s.prefix = runAll(len(ps))
+		out = append(out, s)
+		return s
+	}
+	lm := menu{stop: true, remove: true}
+	// 1. dynamic balloons with minCPUs, idle sharing at system scope
+	dyn := []*blcfg.BalloonDef{
+		{Name: "dyn", Namespaces: []string{"dyn*"}, MinCpus: 1, MaxCpus: 4, PreferNewBalloons: true, ShareIdleCpusInSame: blcfg.CPUTopologyLevelSystem},
+		{Name: "share", Namespaces: []string{"share"}, MinBalloons: 1, MinCpus: 1, ShareIdleCpusInSame: blcfg.CPUTopologyLevelSystem},
+	}
+	add("bl/dyn-share-system", machine16(), []cfgSpec{blCfg("dyn", dyn)},
+		[]podSpec{nsPod("a", "dyn1", tG2, nil), nsPod("b", "dyn1", tB500, nil), nsPod("c", "share", tB500, nil)}, lm)
+	// 2. numa-scope sharing, hidden hyperthreads, cpu classes
+	numa := []*blcfg.BalloonDef{
+		{Name: "fast", Namespaces: []string{"fast"}, MinCpus: 2, MaxCpus: 4, MinBalloons: 1, CpuClass: "turbo", ShareIdleCpusInSame: blcfg.CPUTopologyLevelNuma, HideHyperthreads: bptr(true)},
+		{Name: "slow", Namespaces: []string{"slow"}, MaxCpus: 2, MaxBalloons: 2, CpuClass: "eco", PreferSpreadingPods: true},
+	}
+	add("bl/numa-hideht-classes", machine16(), []cfgSpec{blCfg("numa", numa, blIdleClass("idle"))},
+		[]podSpec{nsPod("a", "fast", tG2, nil), nsPod("b", "slow", tG1, nil), nsPod("c", "slow", tB500, nil)}, lm)
+	// 3. default + reserved only, kube-system container, package-scope sharing on default via explicit definition
+	dflt := []*blcfg.BalloonDef{
+		{Name: "default", MinBalloons: 1, MaxBalloons: 1, ShareIdleCpusInSame: blcfg.CPUTopologyLevelPackage},
+	}
+	add("bl/default-reserved", machine16(), []cfgSpec{blCfg("dflt", dflt, blReserved("cpuset:0,8"))},
+		[]podSpec{nsPod("ks", "kube-system", tB200, nil), nsPod("a", "default", tG2, nil), nsPod("b", "default", tBE, nil)}, menu{stop: true, remove: true, sync: true})
+	// 4. annotated balloon choice, per-namespace balloons, available cpuset, reconfigure
+	ann := []*blcfg.BalloonDef{
+		{Name: "pinned", MinCpus: 1, MaxCpus: 2, MaxBalloons: 2, PreferPerNamespaceBalloon: true},
+		{Name: "big", Namespaces: []string{"big"}, MinCpus: 2, ShareIdleCpusInSame: blcfg.CPUTopologyLevelNuma},
+	}
+	ann2 := []*blcfg.BalloonDef{
+		{Name: "pinned", MinCpus: 2, MaxCpus: 2, MaxBalloons: 2, PreferPerNamespaceBalloon: true},
+		{Name: "big", Namespaces: []string{"big"}, MinCpus: 2, ShareIdleCpusInSame: blcfg.CPUTopologyLevelNuma},
+	}
+	add("bl/annotated-avail-reconf", machine16(), []cfgSpec{blCfg("ann", ann, blAvailable("cpuset:0-13")), blCfg("ann2", ann2, blAvailable("cpuset:0-13"))},
+		[]podSpec{nsPod("a", "n1", tG1, map[string]string{annBalloon: "pinned"}), nsPod("b", "n2", tB500, map[string]string{annBalloon: "pinned"}), nsPod("c", "big", tG2, nil)},
+		menu{stop: true, remove: true, reconf: []int{0, 1}})
+	if thorough {
+		// 5. isolated CPUs present, groupBy, single socket
+		grp := []*blcfg.BalloonDef{
+			{Name: "grp", Namespaces: []string{"*"}, GroupBy: "${pod/labels/app}", MaxCpus: 3, ShareIdleCpusInSame: blcfg.CPUTopologyLevelSystem},
+		}
+		s := add("bl/iso-groupby", machine16iso(), []cfgSpec{blCfg("grp", grp)},
+			[]podSpec{nsPod("a", "x", tG1, nil), nsPod("b", "x", tG1, nil), nsPod("c", "y", tB500, nil)}, lm)
+		s.pods[0].labels = map[string]string{"app": "db"}
+		s.pods[1].labels = map[string]string{"app": "web"}
+		s.pods[2].labels = map[string]string{"app": "db"}
+		add("bl/8cpu-dyn", machine8(), []cfgSpec{blCfg("dyn", dyn)},
+			[]podSpec{nsPod("a", "dyn1", tG2, nil), nsPod("b", "dyn2", tG2, nil), nsPod("c", "share", tB500, nil), nsPod("d", "dyn1", tG1, nil)}, lm)
+	}
 	return out
 }
